@@ -120,18 +120,51 @@ def check_container(kind, elem):
     fails = []
     eb = T.ref_bound(elem)
     if kind == "sarray":
-        try:
-            ty = T.build_type(["sarray", elem])
-            if eb == T.A:
-                fails.append(("StaticArray:accepts-linear", f"StaticArray({elem}) accepted a non-copyable element type"))
-            elif ty.type_bound().value != T.C:
-                fails.append(("StaticArray:bound", f"StaticArray({elem}).type_bound() = {ty.type_bound().value}"))
-        except ValueError:
-            if eb == T.C:
-                fails.append(("StaticArray:rejects-copyable", f"StaticArray({elem}) raised ValueError for a copyable element"))
+        from hugr.std.collections.static_array import StaticArray
+
+        elem_ty = T.build_type(elem)
+        for attempt in (1, 2):  # the same element type object twice: a refusal is not remembered as a check done
+            try:
+                ty = StaticArray(elem_ty)
+                if eb == T.A:
+                    fails.append((f"StaticArray:accepts-linear{':second-attempt' if attempt == 2 else ''}", f"StaticArray({elem}) accepted a non-copyable element type (attempt {attempt} with the same type object)"))
+                elif ty.type_bound().value != T.C:
+                    fails.append(("StaticArray:bound", f"StaticArray({elem}).type_bound() = {ty.type_bound().value}"))
+            except ValueError:
+                if eb == T.C:
+                    fails.append(("StaticArray:rejects-copyable", f"StaticArray({elem}) raised ValueError for a copyable element"))
         return fails
     spec = ["array", 2, elem] if kind == "array" else ["list", elem]
     return check_type(spec)
+
+
+def check_shared_typedef(params, bound):
+    """All fitting argument lists instantiated on ONE TypeDef object, in both orders: every instantiation
+    reports the bound of its own arguments whatever was instantiated before."""
+    from hugr import ext, tys
+
+    B = {"C": tys.TypeBound.Copyable, "A": tys.TypeBound.Any}
+    fails = []
+    argsets = []
+    for p in params:
+        if p[0] == "NP":
+            argsets.append([["NA", 3]])
+        else:
+            argsets.append([["TA", t] for t in ARG_TYPES + [["V", 0, T.C], ["V", 1, T.A], ["Alias", "al", T.C], ["Alias", "al", T.A]] if p[1] == T.A or T.ref_bound(t) == T.C])
+    combos = [list(c) for c in itertools.product(*argsets)]
+    for order in (combos, list(reversed(combos))):
+        e = ext.Extension("c07.shared", ext.Version(0, 1, 0))
+        b = ext.ExplicitBound(B[bound[1]]) if bound[0] == "Explicit" else ext.FromParamsBound(list(bound[1]))
+        td = e.add_type_def(ext.TypeDef("T", "d", [T.build_param(p) for p in params], b))
+        for args in order:
+            ty = td.instantiate([T.build_arg(a) for a in args])
+            exp = bound[1] if bound[0] == "Explicit" else T.join(T.ref_bound(args[i][1]) for i in bound[1] if args[i][0] == "TA")
+            got = ty.type_bound().value
+            ser = _enc(ty).get("bound")
+            if got != exp or ser != exp:
+                fails.append((f"typedef:shared:{'over' if exp == T.A else 'under'}-approx", f"def(params={params}, bound={bound}) instantiated with {args} after other instantiations of the same definition: type_bound()={got}, serialized {ser}, expected {exp}"))
+                return fails
+    return fails
 
 
 GRAMMAR = {"quick": "thorough", "thorough": "xdeep"}  # the term grammars are cheap: quick already uses the larger one
@@ -171,7 +204,16 @@ def run(tier: str, seed: int) -> Result:
             n_cont += 1
             for sig, msg in check_container(kind, e):
                 col.add(sig, msg, {"container": [kind, e]})
-    total = n + n_td + n_join + n_cont
+    n_alias = 0
+    n_shared = 0
+    for nparams in range(1, 3 if tier == "quick" else 4):
+        for params in itertools.product(PARAM_KINDS, repeat=nparams):
+            idxs = [list(sub) for r in range(0, nparams + 1) for sub in itertools.permutations(range(nparams), r)]
+            for bound in [["Explicit", T.C], ["Explicit", T.A]] + [["FromParams", s_] for s_ in idxs]:
+                n_shared += 1
+                for sig, msg in check_shared_typedef(list(params), bound):
+                    col.add(sig, msg, {"shared_typedef": [list(params), bound]})
+    total = n + n_td + n_join + n_cont + n_alias + n_shared
     cov = {
         "states": n + n_td,
         "transitions": total,
@@ -181,7 +223,8 @@ def run(tier: str, seed: int) -> Result:
         "rule": "distinct terms of the bounded type grammar (leaves, 1..2 (thorough 3) constructor levels over rows of "
         "length <=2, <=2 (3) variants); every type definition with <=2 (3) params from {Type C, Type A, Nat} x "
         "{Explicit C/A, FromParams over every index list} x every fitting argument list; TypeBound.join on all "
-        "sequences up to length 4; Array/List/StaticArray over every element type of the grammar. non-trivial = "
+        "sequences up to length 4; Array/List/StaticArray over every element type of the grammar (StaticArray twice on one type object); every "
+        "definition also with all argument lists instantiated on one TypeDef object in both orders. non-trivial = "
         "composite or extension type",
         "samples": col.samples,
         "exhaustive": True,
@@ -189,6 +232,7 @@ def run(tier: str, seed: int) -> Result:
         "typedef_cases": n_td,
         "join_cases": n_join,
         "container_cases": n_cont,
+        "shared_typedef_cases": n_shared,
     }
     return Result(cov, col.violations, ["R5 bound calculus in mc/drivers/terms.py::ref_bound"])
 
@@ -200,6 +244,8 @@ def replay(case) -> list[Violation]:
         out = check_typedef(case["typedef"])
     elif "join" in case:
         out = check_join(case["join"])
+    elif "shared_typedef" in case:
+        out = check_shared_typedef(*case["shared_typedef"])
     else:
         out = check_container(*case["container"])
     return [Violation(s, m, case) for s, m in out]
